@@ -29,6 +29,13 @@ def scratch_copy(repo=None):
 def apply_mutant(root, m):
     p = os.path.join(root, m["file"])
     s = open(p).read()
+    if m.get("edits"):
+        for old, new in m["edits"]:
+            if s.count(old) != 1:
+                raise RuntimeError("mutant %s: edit pattern occurs %d times in %s" % (m["id"], s.count(old), m["file"]))
+            s = s.replace(old, new)
+        open(p, "w").write(s)
+        return
     cnt = s.count(m["old"])
     if cnt != 1 and not m.get("multi"):
         raise RuntimeError("mutant %s: pattern occurs %d times in %s (must be exactly once)" % (m["id"], cnt, m["file"]))
